@@ -649,6 +649,117 @@ def laRwEq (cl : List Tm) : Except Err Seq :=
     | _ => .error .verit
   | _ => .error .verit
 
+-- ------------------------------------------------------------------ equality chains
+
+/-- `t.is_equals()` with the kind of the `equals` constant (6 at type bool, 7 otherwise), `t.lhs`, `t.rhs` -/
+def destEq : Tm → Option (Nat × Tm × Tm)
+  | mkIff a b => some (6, a, b)
+  | mkEq a b => some (7, a, b)
+  | _ => none
+
+/-- the negated equalities `args[:-1]` of eq_transitive / eq_congruent -/
+def destNegEqs : List Tm → Option (List (Nat × Tm × Tm))
+  | [] => some []
+  | mkNot e :: rest =>
+    match destEq e, destNegEqs rest with
+    | some x, some xs => some (x :: xs)
+    | _, _ => none
+  | _ :: _ => none
+
+/-- the loop of eq_transitive: extend `cur` on the right by the next premise, in either orientation -/
+def eqTransLoop (cur : Tm × Tm) : List (Nat × Tm × Tm) → Option (Tm × Tm)
+  | [] => some cur
+  | (_, l, r) :: rest =>
+    if cur.2 == l then eqTransLoop (cur.1, r) rest
+    else if cur.2 == r then eqTransLoop (cur.1, l) rest
+    else none
+
+/-- verit_eq_transitive.  `Eq(s, t)` rebuilds an equality at the type of `s`: for well-typed
+arguments that is the `equals` constant of the first premise (kind `k0`). -/
+def eqTransitive (cl : List Tm) : Except Err Seq :=
+  if cl.length < 3 then .error .verit else
+  match destNegEqs cl.dropLast, cl.getLast? with
+  | some ((k0, l0, r0) :: prems), some goal =>
+    match destEq goal with
+    | none => .error .assertion
+    | some (kg, gl, gr) =>
+      let inG (t : Tm) := t == gl || t == gr
+      if !inG l0 && !inG r0 then .error .verit else
+      let cur0 : Tm × Tm := if !inG l0 && inG r0 then (r0, l0) else (l0, r0)
+      match eqTransLoop cur0 prems with
+      | none => .error .verit
+      | some cur =>
+        if (kg == k0 && cur.1 == gl && cur.2 == gr) || (cur.1 == gr && cur.2 == gl) then .ok ⟨[], mkOrs cl⟩
+        else .error .verit
+  | _, _ => .error .verit
+
+def isComb : Tm → Bool
+  | .comb _ _ => true
+  | _ => false
+
+/-- `for (i, j), (m, n) in zip(preds_eq, concl_eq)`: each premise is the argument pair, in either orientation -/
+def pairsMatch : List (Nat × Tm × Tm) → List (Tm × Tm) → Bool
+  | (_, i, j) :: es, (m, n) :: ps => ((i == m && j == n) || (i == n && j == m)) && pairsMatch es ps
+  | _, _ => true
+
+/-- verit_eq_congruent -/
+def eqCongruent (cl : List Tm) : Except Err Seq :=
+  if cl.length < 2 then .error .verit else
+  match destNegEqs cl.dropLast, cl.getLast? with
+  | some es, some goal =>
+    match destEq goal with
+    | none => .error .verit
+    | some (_, gl, gr) =>
+      if !(isComb gl && isComb gr && head gl == head gr) then .error .verit else
+      let ce := List.zip (args gl) (args gr)
+      if es.length != ce.length then .error .verit
+      else if pairsMatch es ce then .ok ⟨[], mkOrs cl⟩ else .error .verit
+  | _, _ => .error .verit
+
+/-- the loop of verit_trans: the next premise may attach at either end; a premise that does not
+connect is skipped (`continue`) -/
+def transLoop (cur : Tm × Tm) : List (Tm × Tm) → Tm × Tm
+  | [] => cur
+  | (l, r) :: rest =>
+    if cur.2 == l then transLoop (cur.1, r) rest
+    else if cur.2 == r then transLoop (cur.1, l) rest
+    else if cur.1 == l then transLoop (cur.2, r) rest
+    else if cur.1 == r then transLoop (l, cur.2) rest
+    else transLoop cur rest
+
+/-- the premises that `transLoop` actually attaches are first-order equalities (skipped ones may be anything) -/
+def transUsesEq (cur : Tm × Tm) : List (Nat × Tm × Tm) → Bool
+  | [] => true
+  | (k, l, r) :: rest =>
+    if cur.2 == l then k == 7 && transUsesEq (cur.1, r) rest
+    else if cur.2 == r then k == 7 && transUsesEq (cur.1, l) rest
+    else if cur.1 == l then k == 7 && transUsesEq (cur.2, r) rest
+    else if cur.1 == r then k == 7 && transUsesEq (l, cur.2) rest
+    else transUsesEq cur rest
+
+def destEqs : List Tm → Option (List (Nat × Tm × Tm))
+  | [] => some []
+  | e :: rest =>
+    match destEq e, destEqs rest with
+    | some x, some xs => some (x :: xs)
+    | _, _ => none
+
+/-- verit_trans: hypotheses are all hypotheses of the premises, in order (not de-duplicated) -/
+def transRule (cl : List Tm) (ps : List Seq) : Except Err Seq :=
+  match cl with
+  | [arg] =>
+    match destEq arg with
+    | none => .error .verit
+    | some (ka, al, ar) =>
+      if ps.length < 2 then .error .verit else
+      match destEqs (ps.map (·.prop)) with
+      | some ((k0, l0, r0) :: rest) =>
+        let cur := transLoop (l0, r0) (rest.map (·.2))
+        if ka == k0 && ((cur.1 == al && cur.2 == ar) || (cur.2 == al && cur.1 == ar))
+        then .ok ⟨ps.flatMap (·.hyps), arg⟩ else .error .verit
+      | _ => .error .verit
+  | _ => .error .verit
+
 /-- the tier-1 rules of the clause fragment (propositional rules and resolution) -/
 inductive Rule where
   | notOr
@@ -692,6 +803,9 @@ inductive Rule where
   | eqReflexive
   | laDisequality
   | laRwEq
+  | eqTransitive
+  | transRule
+  | eqCongruent
   deriving DecidableEq, Repr
 
 def Rule.ofName : String → Option Rule
@@ -736,6 +850,9 @@ def Rule.ofName : String → Option Rule
   | "verit_eq_reflexive" => some .eqReflexive
   | "verit_la_disequality" => some .laDisequality
   | "verit_la_rw_eq" => some .laRwEq
+  | "verit_eq_transitive" => some .eqTransitive
+  | "verit_trans" => some .transRule
+  | "verit_eq_congruent" => some .eqCongruent
   | _ => none
 
 def Rule.name : Rule → String
@@ -780,8 +897,11 @@ def Rule.name : Rule → String
   | .eqReflexive => "verit_eq_reflexive"
   | .laDisequality => "verit_la_disequality"
   | .laRwEq => "verit_la_rw_eq"
+  | .eqTransitive => "verit_eq_transitive"
+  | .transRule => "verit_trans"
+  | .eqCongruent => "verit_eq_congruent"
 
-def Rule.all : List Rule := [.notOr, .notAnd, .andRule, .orRule, .impliesRule, .notImplies1, .notImplies2, .equiv1, .equiv2, .notEquiv1, .notEquiv2, .ite1, .ite2, .notIte1, .notIte2, .contraction, .notNot, .andPos, .andNeg, .orPos, .orNeg, .impliesPos, .impliesNeg1, .impliesNeg2, .equivPos1, .equivPos2, .equivNeg1, .equivNeg2, .xorPos1, .xorPos2, .xorNeg1, .xorNeg2, .itePos1, .itePos2, .iteNeg1, .iteNeg2, .falseRule, .thResolution, .eqReflexive, .laDisequality, .laRwEq]
+def Rule.all : List Rule := [.notOr, .notAnd, .andRule, .orRule, .impliesRule, .notImplies1, .notImplies2, .equiv1, .equiv2, .notEquiv1, .notEquiv2, .ite1, .ite2, .notIte1, .notIte2, .contraction, .notNot, .andPos, .andNeg, .orPos, .orNeg, .impliesPos, .impliesNeg1, .impliesNeg2, .equivPos1, .equivPos2, .equivNeg1, .equivNeg2, .xorPos1, .xorPos2, .xorNeg1, .xorNeg2, .itePos1, .itePos2, .iteNeg1, .iteNeg2, .falseRule, .thResolution, .eqReflexive, .laDisequality, .laRwEq, .eqTransitive, .transRule, .eqCongruent]
 
 /-- `eval` of the macro registered under the rule name; `sizes` is only read by resolution -/
 def evalRule : Rule → List Tm → List Nat → List Seq → Except Err Seq
@@ -826,6 +946,9 @@ def evalRule : Rule → List Tm → List Nat → List Seq → Except Err Seq
   | .eqReflexive, cl, _, _ => Holpy.C18.eqReflexive cl
   | .laDisequality, cl, _, _ => Holpy.C18.laDisequality cl
   | .laRwEq, cl, _, _ => Holpy.C18.laRwEq cl
+  | .eqTransitive, cl, _, _ => Holpy.C18.eqTransitive cl
+  | .transRule, cl, _, ps => Holpy.C18.transRule cl ps
+  | .eqCongruent, cl, _, _ => Holpy.C18.eqCongruent cl
 
 /-- What well-typedness of the instance gives and the model cannot see: in `not_equiv2` and
 `equiv_neg1` the equivalence is `equals` at type bool (its sides are clause literals). -/
@@ -838,6 +961,21 @@ def wellKinded : Rule → List Tm → List Seq → Bool
     | _ => true
   | .laDisequality, [goal], _ => match stripDisj goal with   -- the compared terms are numbers: `equals` is not at type bool
     | mkIff _ _ :: _ => false
+    | _ => true
+  | .eqTransitive, cl, _ => match destNegEqs cl.dropLast with      -- the chained equalities are first-order
+    | some es => es.all (fun e => e.1 == 7)
+    | none => true
+  | .eqCongruent, cl, _ =>        -- first-order premise equalities; both sides of the conclusion have the same number of arguments
+    (match destNegEqs cl.dropLast with
+     | some es => es.all (fun e => e.1 == 7)
+     | none => true) &&
+    (match cl.getLast? with
+     | some goal => match destEq goal with
+       | some (_, gl, gr) => (args gl).length == (args gr).length
+       | none => true
+     | none => true)
+  | .transRule, _, ps => match destEqs (ps.map (·.prop)) with
+    | some ((k0, l0, r0) :: rest) => k0 == 7 && transUsesEq (l0, r0) rest
     | _ => true
   | .laRwEq, [goal], _ => match goal with
     | mkIff (mkIff _ _) _ | mkEq (mkIff _ _) _ => false
@@ -874,6 +1012,19 @@ def runProof : List Cmd → List Seq → Except Err (List Seq)
       match evalRule r cl sizes ps with
       | .error e => .error e
       | .ok s => runProof rest (acc ++ [s])
+
+/-- `validate(is_eval=True)` exactly as the Python runs it (no `wellKinded` test): this is what the
+driver op `(proof …)` computes and what is compared with `proof_rec` -/
+def runProofRaw : List Cmd → List Seq → Except Err (List Seq)
+  | [], acc => .ok acc
+  | .assume t :: rest, acc => runProofRaw rest (acc ++ [⟨[t], t⟩])
+  | .step r cl sizes prems :: rest, acc =>
+    match lookupAll acc prems with
+    | none => .error .index
+    | some ps =>
+      match evalRule r cl sizes ps with
+      | .error e => .error e
+      | .ok s => runProofRaw rest (acc ++ [s])
 
 /-- the formulas assumed by a proof -/
 def assumptions : List Cmd → List Tm
